@@ -17,17 +17,21 @@ ADD_FAULTS = [("solution", "rank"), ("solution", "inner"), ("objective", "rank")
               ("objective", "overflow"), ("measures", "overflow"),
               ("measures", "rank"), ("measures", "inner"), ("measures", "length"), ("measures", "nan"),
               ("measures", "inf"), ("extra", "missing"), ("extra", "unknown"), ("extra", "length"),
-              ("extra", "inner"), ("extra", "flat")]
+              ("extra", "inner"), ("extra", "flat"), ("extra", "text"), ("solution", "text"),
+              ("objective", "text"), ("measures", "text")]
 SINGLE_FAULTS = [("solution", "rank"), ("solution", "inner"), ("objective", "nan"), ("objective", "inf"),
                  ("objective", "none"), ("measures", "rank"), ("measures", "inner"), ("measures", "nan"),
-                 ("measures", "ninf"), ("extra", "missing"), ("extra", "unknown"), ("extra", "inner")]
-QUERY_FAULTS = [("measures", "rank"), ("measures", "inner"), ("measures", "nan"), ("measures", "inf")]
+                 ("measures", "ninf"), ("extra", "missing"), ("extra", "unknown"), ("extra", "inner"),
+                 ("extra", "text"), ("solution", "text"), ("measures", "text")]
+QUERY_FAULTS = [("measures", "rank"), ("measures", "inner"), ("measures", "nan"), ("measures", "inf"),
+                ("measures", "text")]
 TELL_FAULTS = [("objective", "length"), ("objective", "nan"), ("objective", "rank"), ("measures", "inner"),
                ("measures", "length"), ("measures", "inf"), ("extra", "missing"), ("extra", "length"),
-               ("extra", "inner"), ("objective", "overflow"), ("extra", "flat")]
+               ("extra", "inner"), ("objective", "overflow"), ("extra", "flat"), ("extra", "text"),
+               ("objective", "text")]
 # kinds for which NumPy's own semantics may make the call valid (a flat array that happens to broadcast): the call
 # is first tried on a deep copy and injected only if that copy rejects it
-DRY_RUN_KINDS = {"flat"}
+DRY_RUN_KINDS = {"flat", "text"}
 
 
 def faults_for(entry):
@@ -68,6 +72,16 @@ def build_args(case, fault, dt, sol_dim, nd, layout):
     return sol, obj, meas, extras
 
 
+def _text(arr, where):
+    """The array with one element replaced by a value its numeric dtype cannot hold ("text" malformation)."""
+    a = np.array(arr, dtype=object)
+    if a.ndim == 0:
+        return "abc"
+    flat = a.reshape(-1)
+    flat[where % flat.size] = "abc"
+    return flat.reshape(a.shape)
+
+
 def corrupt(fault, sol, obj, meas, extras, layout, single, dt="f64"):
     """Apply the single malformation to the batch-form arguments.
 
@@ -83,11 +97,16 @@ def corrupt(fault, sol, obj, meas, extras, layout, single, dt="f64"):
         s1, o1, m1 = sol[0], obj[0], meas[0]
         e1 = {k: v[0] for k, v in extras.items()}
         if arg == "solution":
-            s1 = sol[:1] if kind == "rank" else np.concatenate([s1, s1[:1]])       # (1, d) / (d+1,)
+            if kind == "text":
+                s1 = _text(s1, fault["field"])
+            else:
+                s1 = sol[:1] if kind == "rank" else np.concatenate([s1, s1[:1]])   # (1, d) / (d+1,)
         elif arg == "objective":
             o1 = None if kind == "none" else bad[kind]
         elif arg == "measures":
-            if kind == "rank":
+            if kind == "text":
+                m1 = _text(m1, fault["field"])
+            elif kind == "rank":
                 m1 = meas[:1]                                                       # (1, nd)
             elif kind == "inner":
                 m1 = np.concatenate([m1, m1[:1]])
@@ -107,9 +126,19 @@ def corrupt(fault, sol, obj, meas, extras, layout, single, dt="f64"):
                     if not others:
                         return None
                     name = name if extras[name].dtype != object else others[0]
-                    e1 = dict(e1, **{name: np.zeros((7, 3), dtype=extras[name].dtype)})
+                    if kind == "text":
+                        e1 = dict(e1, **{name: _text(e1[name], fault["field"])})
+                    else:
+                        e1 = dict(e1, **{name: np.zeros((7, 3), dtype=extras[name].dtype)})
         return s1, o1, m1, e1
-    if arg == "solution":
+    if kind == "text" and arg != "extra":
+        if arg == "solution":
+            sol = _text(sol, pos * sol.shape[1] + fault["field"] % sol.shape[1])
+        elif arg == "objective":
+            obj = _text(obj, pos)
+        else:
+            meas = _text(meas, pos * meas.shape[1] + fault["field"] % meas.shape[1])
+    elif arg == "solution":
         sol = sol.ravel() if kind == "rank" else np.concatenate([sol, sol[:, :1]], axis=1)
     elif arg == "objective":
         if kind == "rank":
@@ -148,6 +177,13 @@ def corrupt(fault, sol, obj, meas, extras, layout, single, dt="f64"):
                     return None
                 name = vec[fault["field"] % len(vec)]
                 extras = dict(extras, **{name: np.ascontiguousarray(extras[name][:, 0])})
+            elif kind == "text":
+                others = [n_ for n_ in names if extras[n_].dtype != object]
+                if not others:
+                    return None
+                name = name if extras[name].dtype != object else others[0]
+                per = int(np.prod(extras[name].shape[1:], dtype=int))
+                extras = dict(extras, **{name: _text(extras[name], pos * per + fault["field"] % per)})
             else:   # wrong inner shape
                 others = [n_ for n_ in names if extras[n_].dtype != object]
                 if not others:
